@@ -433,17 +433,19 @@ def from_ast(e: ast.AST, env: Env) -> Term:
     raise Unknown('expression kind %s: %s' % (type(e).__name__, norm(e)[:50]))
 
 
-def substitute(t: Term, sub: Dict[str, Term]) -> Term:
+def substitute(t: Term, sub: Dict[str, Term], calls=None) -> Term:
+    """Replace symbols by terms; `calls` maps a call name to f(args: List[Term]) -> Optional[Term] (an interpretation of that
+    call: None keeps the call as an atom)."""
     out = Term({})
     for m, c in t.terms:
         prod = Term.const(c)
         for a, e in m:
-            prod = prod * t_pow(_subst_atom(a, sub), Term.const(e))
+            prod = prod * t_pow(_subst_atom(a, sub, calls), Term.const(e))
         out = out + prod
     return out
 
 
-def _subst_atom(a: Atom, sub: Dict[str, Term]) -> Term:
+def _subst_atom(a: Atom, sub: Dict[str, Term], calls=None) -> Term:
     if a[0] == 'sym':
         return sub.get(a[1], Term.atom(a))
     if a[0] == 'call':
@@ -451,15 +453,21 @@ def _subst_atom(a: Atom, sub: Dict[str, Term]) -> Term:
         kws = []
         for x in a[2]:
             if isinstance(x, tuple) and x and x[0] == 'kw':
-                kws.append(('kw', x[1], substitute(_t(x[2]), sub).key()))
+                kws.append(('kw', x[1], substitute(_t(x[2]), sub, calls).key()))
             else:
-                args.append(substitute(_t(x), sub))
+                args.append(substitute(_t(x), sub, calls))
+        if calls and not kws:
+            f = calls.get(a[1]) or calls.get(a[1].split('.')[-1])
+            if f is not None:
+                r = f(args)
+                if r is not None:
+                    return r
         canon = a[1] if a[1] in set(CANON_FUNCS.values()) else None
         if canon and not kws:
             return t_call(canon, args)
         return Term.atom(('call', a[1], tuple(x.key() for x in args) + tuple(kws)))
     if a[0] == 'pow':
-        return t_pow(substitute(_t(a[1]), sub), substitute(_t(a[2]), sub))
+        return t_pow(substitute(_t(a[1]), sub, calls), substitute(_t(a[2]), sub, calls))
     return Term.atom(a)
 
 
